@@ -91,6 +91,22 @@ pub const PROGRAMS: &[&str] = &[
     "[foreach range(5) as $i (null; $i; [$i, .])] | last",
     "any(.[]?; . == 1), all(.[]?; . != null), isempty(.[]?)",
     "limit(3; recurse(if . < 3 then . + 1 else empty end)?)",
+    // updates that restructure a (possibly shared) value: what a handle elsewhere does or holds
+    // must not show in the result, not even in the order of keys
+    // (one update per program: a comma would keep a second handle to the input alive, and
+    // whether a value is uniquely held is exactly what must not show)
+    "del(.a)?",
+    "del(.b)?",
+    "del(.[0])?",
+    "(.c |= empty)?",
+    "(.b[1] |= del(.c))?",
+    "delpaths([[\"a\"], [\"c\"]])?",
+    "to_entries? | map(.key)",
+    "(. + {z: 1} | del(.a) | keys_unsorted)?",
+    "with_entries(select(.key != \"b\"))?",
+    "(.e.f += 1)?",
+    "(.b[1].d = [.b[1].c])?",
+    "[.[]?] | del(.[1])? | tojson",
     "[.[]? as [$a, $b] | {a: $a, b: $b}]",
     "(.a? // null) as $x | (.b? // [null]) as [$y] | [$x, $y]",
     "tostring | ascii_downcase | test(\"NULL\"; \"ix\")",
@@ -166,6 +182,8 @@ pub const INPUTS: &[&str] = &[
     "\"ab\"",
     "\"caaat AAa\\nbanana Ban\\nB\\nN aa\"",
     "\"a &lt;b&gt; &amp; &quot;q&quot; <i> x%20y%2Fz aGVsbG8= ON2WG2DFON2A====\"",
+    // an object with enough keys for the order after a deletion to be visible
+    "{\"a\": 1, \"b\": [2, {\"c\": 3, \"d\": 4, \"e\": 5}], \"c\": \"x\", \"d\": null, \"e\": {\"f\": 1}}",
 ];
 
 #[derive(Serialize, Deserialize, Clone, Debug)]
